@@ -8,6 +8,9 @@ Two parts, both run against the working tree of the repository on every run:
       objects answering `.value.value` like a GEKKO variable) on generated cells / netlist modules; the
       returned cells, centres and rectangles (or the exception) must equal the model's `extract`;
     * kind "recenter": `Module.recenter_rectangles` on generated multi-rectangle hard modules;
+    * kind "recenter_co": the same call at COINCIDENCES - the centre set by the caller is the area-weighted centre of
+      the rectangles plus, per axis, 0 / less than / exactly / more than the distance epsilon / a grid step / far, half
+      of the cases with a coincidence in one axis only (a module that is already on its x must still move in y);
     * kind "fixrule": `optimize_allocation` is run up to (not including) the solver call and the table
       `model.a` (which entries are Python floats, with which value, which are GEKKO variables) must equal
       `model_a` / `get_a` / `neighbours` / `problem_modules` of the model;
@@ -278,6 +281,43 @@ def gen_recenter(rng):
               for i, (x, y, w, h) in enumerate(rel)]
     c = [F(rng.randrange(0, 128), 8), F(rng.randrange(0, 128), 8)]
     return {"kind": "recenter", "rects": rs, "center": c}
+
+
+def gen_recenter_co(rng):
+    """recenter_rectangles at coincidences (shared with the C14 kernel stream): exact dyadic rectangles, the centre
+    relative to their area-weighted centre"""
+    from harness.props import c14
+    while True:
+        c = c14.gen_rc(rng)
+        sets = [op for op in c["ops"] if op[0] in ("set", "mut")]
+        if c["rects"] and sets:
+            break
+    rs = [rect_d(r[0], r[1], r[2], r[3], hard=True, loc=("TRUNK" if i == 0 else "NOPOLY")) for i, r in enumerate(c["rects"])]
+    return {"kind": "recenter_co", "style": c["style"], "cls": c.get("cls"), "rects": rs,
+            "center": [sets[0][1], sets[0][2]], "eps": c["eps"]}
+
+
+def run_recenter_co(case):
+    """like run_recenter, in the process state recenter_rectangles always runs in: a distance epsilon is defined
+    (given, or the one a Netlist holding the module derives: 1e-12 * the smallest dimension)"""
+    from frame.netlist.module import Module
+    from frame.geometry.geometry import Point, Rectangle
+    Rectangle.undefine_epsilon()
+    try:
+        eps = float(case["eps"]) if case["eps"] is not None else \
+            min(min(float(r["w"]), float(r["h"])) for r in case["rects"]) * 1e-12
+        Rectangle.set_epsilon(eps)
+        m = Module("H", hard=True)
+        for r in case["rects"]:
+            m.add_rectangle(fr.mk_rect(r))
+        m.center = Point(float(case["center"][0]), float(case["center"][1]))
+        try:
+            m.recenter_rectangles()
+        except ZeroDivisionError:
+            return {"out": None, "eps": eps}
+        return {"out": [fr.rect_obs(r) for r in m.rectangles], "eps": eps}
+    finally:
+        Rectangle.undefine_epsilon()
 
 
 def gen_fixrule(rng):
@@ -644,8 +684,8 @@ def run_run(case, probe=None):
 
 
 def run_impl(case):
-    return {"extract": run_extract, "recenter": run_recenter, "fixrule": run_fixrule, "run": run_run,
-            "system": cs.run_system}[case["kind"]](case)
+    return {"extract": run_extract, "recenter": run_recenter, "recenter_co": run_recenter_co, "fixrule": run_fixrule,
+            "run": run_run, "system": cs.run_system}[case["kind"]](case)
 
 
 # ======================================================================================
@@ -722,6 +762,18 @@ def to_coq(case, obs):
         exact = is_pow2(sum(rarea(r) for r in case["rects"]))
         OUT = glist([fr.grect(r) for r in obs["out"]])
         return f"match {call} with Some rs => rects_cmp {gbool(exact)} 16 (qc 64 1) rs {OUT} | None => false end"
+    if kind == "recenter_co":
+        from harness.props import c14
+        RS = glist([fr.grect(r) for r in case["rects"]])
+        c = [float(case["center"][0]), float(case["center"][1])]
+        call = f"recenter ({gq(c[0])}, {gq(c[1])}) {RS}"
+        if obs["out"] is None:
+            return f"match {call} with None => true | Some _ => false end"
+        # exact when every operation of the reference computation is exact in binary64 on this input
+        init = {"center": None, "rects": [[float(r["cx"]), float(r["cy"]), float(r["w"]), float(r["h"])] for r in case["rects"]]}
+        ex, ey = c14.rc_exact(init, [["set", c[0], c[1]], ["rec"]])
+        OUT = glist([fr.grect(r) for r in obs["out"]])
+        return f"match {call} with Some rs => rects_cmp {gbool(ex and ey)} 16 (qc 64 1) rs {OUT} | None => false end"
     if kind == "fixrule":
         if obs["rows"] is None:
             return f"match mk_allocation {gq(case['aeps'])} {ac.gcells(case['cells'])} with None => true | Some _ => false end"
@@ -920,6 +972,25 @@ def oracle(case, obs):
             if any(abs(core.frac(b[key]) - core.frac(a[key]) - d) > dt for a, b in zip(case["rects"], obs["out"])):
                 return "hard/reshaped: recenter_rectangles did not translate all rectangles by the same vector"
         return None
+    if kind == "recenter_co":
+        if obs["out"] is None:
+            return "recenter raised on a module with rectangles"
+        # "translated": one vector for all rectangles, shapes kept; the module ends on its centre - up to the
+        # library's own notion of equal distances (the distance epsilon in force)
+        dt = max(F(1, 10 ** 9) * 64, 2 * core.frac(obs["eps"]))
+        why = rigid(case["rects"], obs["out"], dt)
+        if why:
+            return f"hard/reshaped: recenter_rectangles: {why}"
+        ta = sum(rarea(r) for r in obs["out"])
+        for key, want in (("cx", float(case["center"][0])), ("cy", float(case["center"][1]))):
+            got = sum(core.frac(r[key]) * rarea(r) for r in obs["out"]) / ta
+            if abs(got - core.frac(want)) > dt:
+                return (f"hard/centroid: after recenter the area-weighted centroid {key}={float(got)!r} is not the module "
+                        f"centre {want!r}")
+            d = core.frac(obs["out"][0][key]) - core.frac(case["rects"][0][key])
+            if any(abs(core.frac(b[key]) - core.frac(a[key]) - d) > dt for a, b in zip(case["rects"], obs["out"])):
+                return "hard/reshaped: recenter_rectangles did not translate all rectangles by the same vector"
+        return None
     if kind == "fixrule":
         if obs["rows"] is None:
             return None
@@ -978,7 +1049,7 @@ def shrink(case):
                 n = m["name"]
                 yield dict(case, mods=case["mods"][:i] + case["mods"][i + 1:],
                            a={k: v for k, v in case["a"].items() if k != n})
-    elif case["kind"] == "recenter":
+    elif case["kind"] in ("recenter", "recenter_co"):
         for i in range(len(case["rects"])):
             if len(case["rects"]) > 1:
                 yield dict(case, rects=case["rects"][:i] + case["rects"][i + 1:])
@@ -995,7 +1066,7 @@ def dist_key(case):
 def nontrivial(case):
     if case["kind"] == "extract":
         return len(case["cells"]) >= 2 and len(case["mods"]) >= 2
-    if case["kind"] == "recenter":
+    if case["kind"] in ("recenter", "recenter_co"):
         return len(case["rects"]) >= 2
     if case["kind"] in ("fixrule", "system"):
         return len(case["cells"]) >= 2
@@ -1015,7 +1086,8 @@ def run(ctx, out, replay=None):
                     "1-8 modules mixing soft / movable hard (trunk + 0-3 branches, flip or not) / fixed (1-2 cells), solver "
                     "values satisfying the contract, with noise in fixed cells, exactly at / one ulp / 2^-30 next to 1 - t, "
                     "and wild (out of range, over-full, centres outside); fake-module centres same / mirrored / mixed / "
-                    "coincident; recenter on 0-4 rectangle modules; model.a tables on initial-like and stored allocations. "
+                    "coincident; recenter on 0-4 rectangle modules, and at coincidences (centre = area-weighted centre + per-axis "
+                    "offset 0 / below / at / above the distance epsilon / grid / far; 1-34 rectangles); model.a tables on initial-like and stored allocations. "
                     "(b) real glbfloor runs: dies 4-8 x 4-6 with 0-3 blockages / fixed rectangles, 2-5 movable modules "
                     "(soft, hard, flip), nets and weighted hyperedges, alpha in {0,.3,.5,.7,1}, threshold in {.5,.8,.95}, "
                     "max_iter 1-2, no refinement / split_refinable_regions / initial_grid; module names renamed with "
@@ -1038,6 +1110,7 @@ def run(ctx, out, replay=None):
         cases += [gen_extract(rng) for _ in range(n_ext)]
         cases += [gen_recenter(rng) for _ in range(n_rec)]
         cases += [gen_fixrule(rng) for _ in range(n_fix)]
+        cases += [gen_recenter_co(rng) for _ in range(n_rec)]      # after the other streams: their cases stay as they were
         cs.STATS.clear()
         stats = {"runs": 0, "returned": 0, "raised": 0, "invalid_input": 0, "iterations": 0, "solok_held": 0,
                  "solok_violated": 0, "solok_worst_excess": 0.0, "raised_kinds": {}, "solok_clauses": {}}
